@@ -172,13 +172,24 @@ class C(VPCheck):
             it['spec'] = te
         return VPCheck.result_tree(self, it, st)
 
+    def _rebuild_family(self, ta, tb):
+        """Two results that should be eq but are not: classify as the recorded family when they differ only by re-canonicalisation, i.e.
+        (cheap test) by refolding (b**-1)**q, or (general test) they have the same value at generic points."""
+        if ta is None or tb is None:
+            return None
+        if norm_recip(ta) == norm_recip(tb):
+            return 'rebuild-recanonicalises'
+        from . import _value
+        v = _value.bounded(lambda: _value.judge_items([('k', ta, tb, None)], self.seed + 3)[0][1], seconds=30, default='inconclusive')
+        return 'rebuild-recanonicalises' if v == 'ok' else None
+
     def extra_checks(self, it, r):
         prog = [render(s) for s in it['stmts']]
         st = r.s(3)
         t2 = r.s(4).v['t'] if r.s(4) is not None and r.s(4).st == 'ok' else None
         te = r.s(5).v['t'] if r.s(5) is not None and r.s(5).st == 'ok' else None
         if st is not None and st.st == 'ok' and st.v is False:
-            fam = 'reciprocal-power-refolded' if t2 is not None and norm_recip(it['_rawtree']) == norm_recip(t2) else None
+            fam = self._rebuild_family(it['_rawtree'], t2)
             self.violation(dict(clause='cache-dependence', api=it['label'], family=fam),
                            dict(program=prog, result=it['_str'], result_nocache=r.s(4).v.get('s') if t2 is not None else None, config='asan'))
         if st is not None and st.st == 'exc':
@@ -186,7 +197,7 @@ class C(VPCheck):
         if it.get('noop'):
             st = r.s(6)
             if st is not None and st.st == 'ok' and st.v is False:
-                fam = 'reciprocal-power-refolded' if te is not None and norm_recip(it['_rawtree']) == norm_recip(te) else None
+                fam = self._rebuild_family(it['_rawtree'], te)
                 self.violation(dict(clause='noop-not-equal', api=it['label'], family=fam), dict(program=prog, result=it['_str'], config='asan'))
 
     def key_of(self, it, detail):
